@@ -1,4 +1,4 @@
-"""C03 -- extract preserves behaviour or is refused (VGC rules R03.1-R03.20)."""
+"""C03 -- extract preserves behaviour or is refused (VGC rules R03.1-R03.21)."""
 from __future__ import annotations
 
 import ast
@@ -27,6 +27,7 @@ EXPLANATION += ' R03.15: a function that remembers its answer under a key reads,
 EXPLANATION += " R03.18: in the anchored modules and the shared text utilities no source text is cut with str.splitlines() (it breaks at form feed, \x1c-\x1e, \x85, U+2028/9; rope's and the ast's line numbers count \n only)."
 EXPLANATION += " R03.19: program text that is moved is not whitespace-normalised (the result of `\" \".join(text.split())` is only ever compared, never emitted)."
 EXPLANATION += " R03.20: the return-is-last test behind the refusal does not look through a try statement that has handlers."
+EXPLANATION += " R03.21: no `.add(*names)` in the extraction code (set.add / OrderedSet.add take one key: `global a, b` in the host made every extraction a TypeError)."
 ASSUMPTIONS = [
     "the break/continue finder lacking AsyncFor and the missing scope cuts of the return counter only cause over-refusal, which the property allows: recorded as exceptions, not armed (R03.5 arms only the under-refusal direction: else clauses)",
     "IfExp/BoolOp conditional evaluation matters only with a walrus inside: not armed",
@@ -495,6 +496,7 @@ def check(ctx, res) -> None:
 
     _wn(ctx, res, "R03.19", ('rope.refactor.extract', 'rope.refactor.sourceutils', 'rope.refactor.similarfinder', 'rope.refactor.usefunction'))
     _return_last_is_not_seen_through_a_handler_rule(ctx, res)
+    _one_key_at_a_time_rule(ctx, res)
 
 
 def _loop_carried_reads_rule(ctx, res) -> None:
@@ -592,3 +594,27 @@ def _return_last_is_not_seen_through_a_handler_rule(ctx, res) -> None:
                 "/ `except KeyError: pass` is accepted and replaced by `return helper(...)` -- on the exception path the function now returns None instead of running the statements "
                 "after the region", function=f.qualname)
     res.floor("R03.20", "return-is-last tests", n, 1)
+
+
+def _one_key_at_a_time_rule(ctx, res) -> None:
+    """R03.21: a request is honoured or refused with a refactoring error, whatever the host function declares.  `set.add` / `OrderedSet.add` take
+    ONE key: `names.add(*node.names)` works for `global a` and raises TypeError for `global a, b` -- every extraction in such a function
+    ends in an internal error.  No call of `.add` in the extraction code has a starred argument (the detector is checked on a fixed
+    example at every run)."""
+    idx = ctx.idx
+    probe = ast.parse("s.add(*names)\ns.add(name)\ns.update(*many)\n")
+    starred = lambda tree: [c for c in ast.walk(tree) if isinstance(c, ast.Call) and isinstance(c.func, ast.Attribute) and c.func.attr == "add"
+                            and any(isinstance(a, ast.Starred) for a in c.args)]
+    if len(starred(probe)) != 1:
+        raise AnalysisError("starred-add detector self-check failed")
+    n = 0
+    for modname in ("rope.refactor.extract", "rope.refactor.usefunction", "rope.refactor.similarfinder", "rope.refactor.suites", "rope.base.utils.datastructures"):
+        u = idx.units.get(modname)
+        if u is None:
+            continue
+        for c in starred(u.tree):
+            n += 1
+            res.fail("R03.21", f"{modname.split('.')[-1]}|add-takes-one-key#{n}", f"{u.rel}:{c.lineno}",
+                     f"`{ast.unparse(c)[:60]}` hands all the elements to a method that takes ONE key: fine for `global a`, TypeError for `global a, b` -- extracting anything in a function "
+                     "with such a declaration ends in an internal error instead of a result or a refusal")
+    res.add("R03.21", "extract|add-takes-one-key", n == 0, "rope/refactor/extract.py:1", "no `.add(*...)` call in the extraction code" if n == 0 else f"{n} `.add(*...)` call(s) in the extraction code")
